@@ -1268,7 +1268,7 @@ def clear_blocks(unit, b, depth=0):
 
 
 def flw8(ctx):
-    r = RuleResult("FLW-8", "alpha / variable bindings are emptied before every match attempt and at every restart of a partial input match", floor=6)
+    r = RuleResult("FLW-8", "alpha / variable bindings are emptied before every match attempt and at every restart of a partial input match", floor=4)
     lib = ctx.lib
     # (a) SubRule::apply: each input_match_at call is dominated, inside the scan loop, by clears of both tables
     ap = ctx.fn(lib, SUBRULE + "::apply")
@@ -1506,7 +1506,7 @@ def var1(ctx):
 
 
 def var2(ctx):
-    r = RuleResult("VAR-2", "a syllable variable captured by a direction-aware context matcher is stored in reading order (the backwards branch reverses the copy)", floor=4)
+    r = RuleResult("VAR-2", "a syllable variable captured by a direction-aware context matcher is stored in reading order (the backwards branch reverses the copy)", floor=3)
     lib = ctx.lib
     n = 0
     for b in lib.bodies:
@@ -1539,6 +1539,29 @@ def var2(ctx):
                 x = par.get(id(x))
             n += 1
             if branch is None:
+                # one store for both directions: the stored local must have been reversed under `!forwards` beforehand
+                stored = None
+                for a_ in node["args"]:
+                    for m in hirq.walk(a_):
+                        if m["e"] == "call" and (hirq.strip(m["f"]).get("path") or "") == "asca::subrule::VarKind::Syllable" and m["args"]:
+                            stored = hirq.path_hid(m["args"][0])
+                rev_ok = False
+                if stored is not None:
+                    for iff in [y for y in hirq.walk(root) if y["e"] == "if"]:
+                        c = hirq.strip(iff["cond"])
+                        neg = False
+                        if c.get("e") == "unary" and c.get("op") == "Not":
+                            neg, c = True, hirq.strip(c["a"])
+                        if not (c.get("e") == "path" and c.get("local") == "forwards"):
+                            continue
+                        back_arm = iff["then"] if neg else iff.get("else")
+                        if back_arm is not None and any(m["e"] == "mcall" and m["name"] == "reverse" and any(z["e"] == "path" and z.get("hid") == stored for z in hirq.walk(m["recv"])) for m in hirq.walk(back_arm)) \
+                                and iff.get("ln", 0) <= node.get("ln", 0):
+                            rev_ok = True
+                if rev_ok:
+                    r.inst("%s: capture #%d stores a copy that was reversed under `!forwards`" % (b.path.rsplit("::", 1)[-1], k), fn_loc(b, node["ln"]), "ok")
+                    k += 1
+                    continue
                 r.inst("%s: capture #%d does not depend on the direction" % (b.path.rsplit("::", 1)[-1], k), fn_loc(b, node["ln"]), "report")
                 r.report("VAR-2|%s|#%d|no-split" % (b.path, k), fn_loc(b, node["ln"]), b.path,
                          "a syllable is captured into a variable without regard to `forwards`: a before-context is matched on the reversed word, so the stored syllable is back to front and a later use of the variable matches / writes its mirror image")
@@ -1554,6 +1577,6 @@ def var2(ctx):
             if not ok:
                 r.report("VAR-2|%s|#%d|not-reversed" % (b.path, k), fn_loc(b, node["ln"]), b.path, "the syllable captured while matching backwards is stored without being reversed")
             k += 1
-    if n < 4 and not r.reports:
+    if n < 3 and not r.reports:
         raise AnchorMissing("only %d direction-aware syllable captures found" % n)
     return r
